@@ -9,6 +9,9 @@ Line protocol of the geometric display list of C17 (driver_c17).
           | (A id x y w h)      painting area given as such (the page's bleed area)
           | (C id x y w h)      painting area of the canvas background (only used when the page has no B entry:
                                 the model takes the page's border box, as `layout_backgrounds` does)
+          | (R id geo (cell …))         a table row: its geometry and the ids of its cells (B entries)
+          | (G id geo ((cell …) …))     a row group: the cells of each of its rows
+          | (K id geo (cell …))         a column or column group: `get_cells()`
           | (T id x y size)     text origin (`position_x`, `position_y + baseline`) and font size
   → one token per painted item:
       kind:colour:alphas:transforms:clip|clip|…:geometry
@@ -21,6 +24,7 @@ import WpModel.Model.Wire
 import WpModel.Model.PaintOrder
 import WpModel.Model.LaidOut
 import WpModel.Model.RoundedBox
+import WpModel.Model.TablePartBg
 import WpModel.Drive.Stacking
 import WpModel.Drive.Rounded
 
@@ -47,8 +51,13 @@ def showOp : PathOp → String
 
 def showPath (p : List PathOp) : String := "".intercalate (p.map showOp)
 
+inductive PartKind where
+  | row | group | column
+  deriving Repr, DecidableEq, BEq
+
 structure Table where
   boxes : List (Nat × Geo × BgClip) := []
+  parts : List (Nat × PartKind × Geo × List (List Nat)) := []
   areas : List (Nat × (Rat × Rat × Rat × Rat)) := []
   canvas : List (Nat × (Rat × Rat × Rat × Rat)) := []
   texts : List (Nat × (Rat × Rat × Rat)) := []
@@ -66,6 +75,13 @@ def entry? (t : Table) : Sx → Option Table
     pure { t with areas := ((← id.nat?), ((← x.rat?), (← y.rat?), (← w.rat?), (← h.rat?))) :: t.areas }
   | .list [.atom "C", id, x, y, w, h] => do
     pure { t with canvas := ((← id.nat?), ((← x.rat?), (← y.rat?), (← w.rat?), (← h.rat?))) :: t.canvas }
+  | .list [.atom "R", id, g, .list cells] => do
+    pure { t with parts := ((← id.nat?), .row, (← Wp.Drive.Rounded.geo? g), [← allSome Sx.nat? cells]) :: t.parts }
+  | .list [.atom "K", id, g, .list cells] => do
+    pure { t with parts := ((← id.nat?), .column, (← Wp.Drive.Rounded.geo? g), [← allSome Sx.nat? cells]) :: t.parts }
+  | .list [.atom "G", id, g, .list rows] => do
+    let rows ← allSome (fun r => match r with | .list cells => allSome Sx.nat? cells | _ => none) rows
+    pure { t with parts := ((← id.nat?), .group, (← Wp.Drive.Rounded.geo? g), rows) :: t.parts }
   | .list [.atom "T", id, x, y, sz] => do
     pure { t with texts := ((← id.nat?), ((← x.rat?), (← y.rat?), (← sz.rat?))) :: t.texts }
   | _ => none
@@ -75,7 +91,20 @@ def table? (entries : List Sx) : Option Table :=
 
 def rect (r : Rat × Rat × Rat × Rat) : String := showOp (.re r.1 r.2.1 r.2.2.1 r.2.2.2)
 
+/-- The background layer of a table part (`layout_background_layer`): painting area and clipped boxes;
+`none` when the id is not a table part or a cell's geometry is missing. -/
+def partLayer (t : Table) (id : Nat) : Option (Wp.TablePart.Rect × List RBox) := do
+  let (kind, g, rows) ← t.parts.lookup id
+  let geos ← allSome (fun cells => allSome (fun c => (t.boxes.lookup c).map (·.1)) cells) rows
+  match kind with
+  | .row => pure (Wp.TablePart.rowLayer g geos.flatten)
+  | .column => pure (Wp.TablePart.columnLayer g geos.flatten)
+  | .group => pure (Wp.TablePart.groupLayer g geos)
+
 def areaOf (t : Table) (role : Role) (id : Nat) : String :=
+  if (role == .bg || role == .colBg) && (t.parts.lookup id).isSome then
+    match partLayer t id with | some (r, _) => rect r | none => "*"
+  else
   if role == .canvas then
     -- layout_backgrounds: `painting_area = box_rectangle(page, 'border-box')` for every layer of the canvas
     match t.boxes.lookup id with
@@ -95,7 +124,11 @@ def showClip (t : Table) : Clip → String
   | .overflow id => match t.boxes.lookup id with
     | some (g, _) => showPath (roundedPath (roundedPaddingBox g)) | none => "*"
   | .bgBoxes role id =>
-    if role == .bg then
+    if (t.parts.lookup id).isSome then
+      match partLayer t id with
+      | some (_, clipped) => "+".intercalate (clipped.map (fun b => showPath (roundedPath b)))
+      | none => "*"
+    else if role == .bg then
       match t.boxes.lookup id with
       | some (g, k) => showPath (roundedPath (clippedBox g k)) | none => "*"
     else "*"
@@ -111,6 +144,7 @@ partial def sidesOf : Box → List (Nat × Nat)
 def showGeom (t : Table) (sides : List (Nat × Nat)) : Item → String
   | .paint .bg id _ _ => areaOf t .bg id
   | .paint .canvas id _ _ => areaOf t .canvas id
+  | .paint .colBg id _ _ => areaOf t .colBg id
   | .paint .border id _ _ =>
     match t.boxes.lookup id, sides.lookup id with
     | some (g, _), some 4 =>
